@@ -95,7 +95,8 @@ CHECKS = {
              'each overridden cell (formula, constant, blank, outside the used range) is replaced by its most recently supplied constant (exec_refines, by an invariant over '
              'histories; override_is_edit by induction on the evaluation depth). Clauses as corollaries: last_write_wins, override_shadows, overridden_formula_irrelevant, '
              'override_outside, no_override_no_change. Set-cells calls that are REJECTED (an address that does not resolve) are in the model (Model/ExecRej.lean): '
-             'rejected_batch_changes_nothing and exec_refines_with_rejected - a history with rejected calls anywhere answers every query as the history without them. '
+             'rejected_batch_changes_nothing and exec_refines_with_rejected - a history with rejected calls anywhere answers every query as the history without them; '
+             'exec_refines_calls - the same for the public API with addresses as the caller writes them (unknown titles, bad letters, row 0, sheet numbers the workbook does not have), with no side condition left. '
              'Tie B: generated workbooks x histories with repeated cells, rejected batches and all addressing styles against the model and spec, plus '
              'real-code laws: values after overrides = a fresh translation of the edited workbook; whatever a rejected call left is visible at once and stays.',
         note='Trusted: Lean kernel; standard axioms; hand model tied by correspondence; formula evaluation in the model is the C13 fragment evaluator (a parameter of the proof: '
